@@ -3,7 +3,7 @@ import time
 import z3
 from .core import (Sym, OutsideSubset, EngineError, Infeasible, PathLimit, PyRaise, ExcVal, wrap, to_z3,
                    And, Or, Not)
-from .values import GuardedList, SymSet, SymMap, Obj, Extern, set_current_ctx
+from .values import GuardedList, SymSet, SymMap, MapBox, Obj, Extern, set_current_ctx
 
 
 class Obligation:
@@ -46,6 +46,10 @@ class Ctx:
         self.feas_timeout_ms = feas_timeout_ms
         self.solver_calls = 0
         self.solver_seconds = 0.0
+        self.map_inputs = {}             # name -> (dom array, val array)
+        self.key_literals = set()        # concrete strings used as map keys (relevant keys for models)
+        self.split_registry = []         # (joined z3 string, separator, [parts])
+        self.no_fork = 0
 
     # ------------------------------------------------------------------ solver / forking
     @property
@@ -98,6 +102,8 @@ class Ctx:
                 else:
                     can_t = self.feasible(e)
                     can_f = self.feasible(z3.Not(e))
+                    if can_t and can_f and self.no_fork:
+                        raise OutsideSubset("a fork inside a symbolic comprehension / quantified body: %s" % e)
                     if can_t and can_f:
                         self.pending.append(self.decisions[:] + [False])
                         d = True
@@ -177,6 +183,55 @@ class Ctx:
         elif v not in values:
             raise EngineError("model value %r for %s outside its enumeration" % (v, name))
         return v
+
+    def map(self, name, ksort=None, vsort=None):
+        """a dict with arbitrary (symbolic) string keys and values.  Concrete mode: the python dict read
+        from the model at the relevant keys (see verify.model_inputs)."""
+        key = self._occ(name)
+        if self.mode == 'sym':
+            ks, vs = ksort or z3.StringSort(), vsort or z3.StringSort()
+            dom = z3.Const(key + '.dom', z3.ArraySort(ks, z3.BoolSort()))
+            val = z3.Const(key + '.val', z3.ArraySort(ks, vs))
+            self.map_inputs[key] = (dom, val)
+            return MapBox(SymMap(dom, val, ks, vs))
+        d = dict(self.model.get(key, {}))
+        self.inputs[key] = d
+        return d
+
+    def joined(self, name, sep, nparts):
+        """a string  p1 sep p2 ... (parts are symbolic strings without sep); .split(sep) returns the parts"""
+        parts = [self.str('%s.part%d' % (name, i)) for i in range(nparts)]
+        if self.mode != 'sym':
+            for p in parts:
+                if sep in p:
+                    raise EngineError("model part %r contains the separator" % p)
+            return sep.join(parts)
+        for p in parts:
+            self.assume(z3.Not(z3.Contains(p.e, z3.StringVal(sep))))
+        exprs = []
+        for i, p in enumerate(parts):
+            if i:
+                exprs.append(z3.StringVal(sep))
+            exprs.append(p.e)
+        j = z3.Concat(*exprs) if len(exprs) > 1 else exprs[0]
+        self.split_registry.append((j, sep, parts))
+        return Sym(j)
+
+    def push_scope(self, assumption):
+        """temporary assumption (body of a symbolic comprehension); no forks allowed inside"""
+        self.solver.push()
+        self._scopes = getattr(self, '_scopes', [])
+        self._scopes.append(len(self.pc))
+        e = assumption.e if isinstance(assumption, Sym) else assumption
+        if not isinstance(e, bool):
+            self.pc.append(e)
+            self.solver.add(e)
+        self.no_fork += 1
+
+    def pop_scope(self):
+        self.no_fork -= 1
+        del self.pc[self._scopes.pop():]
+        self.solver.pop()
 
     def inputs_value(self, name):
         v = self.inputs[name]
